@@ -42,21 +42,30 @@ def sdf_bound(v, f, p):
 
 
 def surface_points(v, f, m):
-    """about m points on the surface: a barycentric lattice strictly inside every face plus face-edge midpoints and
-    the vertices (deterministic)"""
+    """about m points on the surface, UNIFORM with respect to area: every face carries a barycentric lattice (cell
+    centroids) whose point count is proportional to the face area (deterministic)"""
     t = _tri(v, f)
-    per = max(1, int(np.ceil(m / len(t))))
-    q = 1
-    while (q + 1) * (q + 2) // 2 < per:
-        q += 1
+    areas = np.linalg.norm(np.cross(t[:, 1] - t[:, 0], t[:, 2] - t[:, 0]), axis=1) / 2.0
+    pts = []
+    for tri, ar in zip(t, areas):
+        q = max(1, int(round(np.sqrt(m * ar / areas.sum()))))       # q*q small triangles per face
+        for i in range(q):
+            for j in range(q - i):
+                a, b = (i + 1 / 3) / q, (j + 1 / 3) / q                 # upward cells
+                pts.append(tri[0] + a * (tri[1] - tri[0]) + b * (tri[2] - tri[0]))
+                if j < q - i - 1:
+                    a, b = (i + 2 / 3) / q, (j + 2 / 3) / q             # downward cells
+                    pts.append(tri[0] + a * (tri[1] - tri[0]) + b * (tri[2] - tri[0]))
+    return np.asarray(pts)
+
+
+def special_points(v, f):
+    """vertices and edge midpoints (on the surface, where ray-casting and nearest-face queries are least robust)"""
+    t = _tri(v, f)
     pts = []
     for tri in t:
-        for i in range(q + 1):
-            for j in range(q + 1 - i):
-                a, b = (i + 1 / 3) / (q + 1), (j + 1 / 3) / (q + 1)
-                pts.append(tri[0] + a * (tri[1] - tri[0]) + b * (tri[2] - tri[0]))
-        pts += [0.5 * (tri[0] + tri[1]), 0.5 * (tri[1] + tri[2]), tri[0]]
-    return np.asarray(pts)
+        pts += [0.5 * (tri[0] + tri[1]), 0.5 * (tri[1] + tri[2]), 0.5 * (tri[2] + tri[0]), tri[0], tri[1], tri[2]]
+    return np.unique(np.round(np.asarray(pts), 12), axis=0)
 
 
 def edge_dist(v, f, p):
